@@ -1,0 +1,13 @@
+//go:build verif
+
+package level
+
+import pk "github.com/Tnze/go-mc/net/packet"
+
+// Access for the verification harness to the unexported light block of the chunk packet.
+// Compiled only with -tags verif.
+
+// VerifLightData is lightData under an exported name (fields and WriteTo/ReadFrom are those of lightData).
+type VerifLightData = lightData
+
+func VerifBitSetRev(set pk.BitSet) pk.BitSet { return bitSetRev(set) }
